@@ -653,6 +653,24 @@ def r20_12(run, model):
             run.ob("R20.12", f"HirResultsIndex::new|index write #{n} lets the later (outer) node win", ok, site(QUERY, c["sp"]),
                    S.norm_ws(run.facts.text(QUERY, c["sp"]))[:70],
                    witness="hover on t.1.0 with t: (int32, (Point, string)): the answer is (Point, string), the type of the inner projection t.1")
+    # an index that scans on demand instead of filling maps: the scan keeps the last id recorded for the pointer (rfind / rev().find / last),
+    # a plain find / position / find_map answers with the first - the inner node
+    for g in model.fns(QUERY):
+        if g.body is None or g.impl != "HirResultsIndex":
+            continue
+        for c in S.walk(g.body):
+            if c["k"] != "MethodCall" or c["method"] not in ("find", "find_map", "position", "rfind", "rposition", "last", "next", "next_back") or \
+                    not any(x["k"] == "MethodCall" and x["method"] in ("expr_ptr", "pat_ptr", "local_origin_ptr") for x in S.walk(c)):
+                continue
+            chain, r = [], c["recv"]
+            while r["k"] == "MethodCall":
+                chain.append(r["method"])
+                r = r["recv"]
+            last_wins = c["method"] in ("rfind", "rposition", "last", "next_back") or "rev" in chain
+            n += 1
+            run.ob("R20.12", f"HirResultsIndex::{g.name}|the scan lets the later (outer) node win", last_wins, site(QUERY, c["sp"]),
+                   f"`.{c['method']}(..)` over {list(reversed(chain))}",
+                   witness="hover on t.1.0 with t: (int32, (Point, string)): the answer is (Point, string), the type of the inner projection t.1")
     run.floor("writes to the pointer index", n, 3)
 
 
